@@ -13,7 +13,7 @@
 (*  - the STRICT comparison "observed state = state computed by the        *)
 (*    concrete operators" only increments the drift counter (register 42). *)
 (***************************************************************************)
-EXTENDS HbMapOps, Json, IOUtils, TLCExt, SequencesExt
+EXTENDS HbSetOps, Json, IOUtils, TLCExt, SequencesExt
 
 Rec == ndJsonDeserialize(IOEnv.TRACE)
 \* the property this validation run decides (C01 ... C20); "ALL" = every check is decisive
@@ -36,12 +36,14 @@ OpProp(op, kind) ==
    ELSE IF op \in RawEntryOps THEN {"C14"}
    ELSE IF op \in {"retain", "extract_if", "drain"} THEN {"C10"} \cup KindProp(kind)
    ELSE IF op \in {"iter", "into_iter"} THEN {"C09"}
-   ELSE IF op \in {"clone", "clone_from", "eq"} THEN {"C11"}
+   ELSE IF op \in {"clone", "clone_from", "eq"} THEN {"C11"} \cup (IF kind = "set" /\ op = "eq" THEN {"C07"} ELSE {})
    ELSE IF op \in {"get_many_mut", "get_many_kv_mut"} THEN {"C15"} \cup KindProp(kind)
+   ELSE IF op \in {"s_entry_insert", "s_entry_or_insert", "s_entry_remove", "s_entry_get", "s_entry_into_value"} THEN {"C14", "C07"}
    ELSE IF op = "try_reserve" THEN {"C12", "C08"}
    ELSE IF op \in {"reserve", "shrink_to", "shrink_to_fit", "with_capacity", "new"} THEN {"C08"} \cup KindProp(kind)
    ELSE KindProp(kind))
 SafetyProps == {"C02", "C04", "C05", "C13"}
+OpForms == {"op_or", "op_and", "op_xor", "op_sub"}
 
 VARIABLES l,      \* next line of the trace
           hd,     \* header of the current scenario (reset event)
@@ -76,6 +78,7 @@ LiveBlocks(tbs, txs, h, i) ==
 NoIds(t) == [t EXCEPT !.data = [i \in 0..t.mask |-> IF t.data[i] = NoElem THEN NoElem
                                                    ELSE <<t.data[i][1], 0, t.data[i][3], 0, t.data[i][5], t.data[i][6]>>]]
 KVH(A) == {<<x[1], x[3], x[5], x[6]>> : x \in A}
+IdCount(A) == Cardinality({x \in A : x[2] > 0}) + Cardinality({x \in A : x[4] > 0})
 
 ---------------------------------------------------------------------------
 (* operations whose abstract result needs the observed state *)
@@ -168,26 +171,53 @@ OpStep(e) ==
           [] e.op \in {"get_many_mut", "get_many_kv_mut"} -> GetManyAbs(e, A, obsT[t])
           [] e.op = "clone" -> AR(A, AllIds(A2), e.pn = "")              \* table u is replaced by a clone of t
           [] e.op = "clone_from" -> AR(A, AllIds(A), e.pn = "")          \* contents of t replaced (checked below)
+          [] e.op = "or_assign" -> AR(A, {}, e.pn = "")
+          [] e.op = "xor_assign" -> AR(A, {z[2] : z \in {w \in A : w[1] \in Cls(A2)}}, e.pn = "")
+          [] e.op \in OpForms -> AR(A, AllIds(ab[3]), e.pn = "")
+          [] hd.kind = "set" -> AbsSetOp(e, A, A2, ph)
           [] OTHER -> AbsMapOp(e, A, A2, ph)
       newAb == [i \in 1..hd.nt |->
                   IF e.op = "clone" /\ i = u THEN Elems(obsT[u])
-                  ELSE IF e.op = "clone_from" /\ i = t THEN Elems(obsT[t])
+                  ELSE IF e.op \in {"clone_from", "or_assign", "xor_assign"} /\ i = t THEN Elems(obsT[t])
+                  ELSE IF e.op \in OpForms /\ i = 3 THEN Elems(obsT[3])
+                  ELSE IF e.op \in OpForms THEN ab[i]
                   ELSE IF i = t THEN absr.A ELSE ab[i]]
+      known == AllIds(A) \cup AllIds(A2) \cup lk.ids \cup (IF hd.nt >= 3 THEN AllIds(ab[3]) ELSE {})
+      \* N = new content, K = elements that must survive unchanged, C = classes N must have; the rest are fresh clones
+      FreshOK(N, K, C) ==
+        /\ K \subseteq N /\ Cls(N) = C /\ Cardinality(N) = Cardinality(C)
+        /\ \A z \in N \ K : z[5] = ph[z[1]].pos /\ z[6] = ph[z[1]].tag
+        /\ (hd.tr = 1 => /\ {z[2] : z \in N \ K} \cap known = {}
+                         /\ Cardinality({z[2] : z \in N \ K}) = Cardinality(N \ K))
+      algOK ==
+        CASE e.op = "or_assign" -> FreshOK(Elems(obsT[t]), A, Cls(A) \cup Cls(A2))
+          [] e.op = "xor_assign" -> FreshOK(Elems(obsT[t]), {z \in A : z[1] \notin Cls(A2)}, (Cls(A) \ Cls(A2)) \cup (Cls(A2) \ Cls(A)))
+          [] e.op \in OpForms ->
+               LET C == CASE e.op = "op_or" -> Cls(A) \cup Cls(A2)
+                          [] e.op = "op_and" -> Cls(A) \cap Cls(A2)
+                          [] e.op = "op_xor" -> (Cls(A) \ Cls(A2)) \cup (Cls(A2) \ Cls(A))
+                          [] OTHER -> Cls(A) \ Cls(A2)
+                   N == Elems(obsT[3])
+               IN /\ Cls(N) = C /\ Cardinality(N) = Cardinality(C)
+                  /\ (hd.tr = 1 => {z[2] : z \in N} \cap known = {} /\ Cardinality({z[2] : z \in N}) = Cardinality(N))
+                  /\ obsX[3].lv
+          [] OTHER -> TRUE
       cloneOK ==
         IF e.op = "clone" THEN
              /\ KVH(Elems(obsT[u])) = KVH(A) /\ Cardinality(Elems(obsT[u])) = Cardinality(A)
              /\ (hd.tr = 1 => /\ AllIds(Elems(obsT[u])) \cap (AllIds(A) \cup AllIds(A2) \cup lk.ids) = {}
-                              /\ Cardinality(AllIds(Elems(obsT[u]))) = 2 * Cardinality(A))
+                              /\ Cardinality(AllIds(Elems(obsT[u]))) = IdCount(Elems(obsT[u])))
              /\ obsX[u].lv /\ obsX[u].pl = prex.pl
         ELSE IF e.op = "clone_from" THEN
              /\ KVH(Elems(obsT[t])) = KVH(A2) /\ Cardinality(Elems(obsT[t])) = Cardinality(A2)
              /\ (hd.tr = 1 => /\ AllIds(Elems(obsT[t])) \cap (AllIds(A) \cup AllIds(A2) \cup lk.ids) = {}
-                              /\ Cardinality(AllIds(Elems(obsT[t]))) = 2 * Cardinality(A2))
+                              /\ Cardinality(AllIds(Elems(obsT[t]))) = IdCount(Elems(obsT[t])))
              /\ obsX[t].pl = tx[u].pl
         ELSE TRUE
       lvAfter(i) == IF e.op = "drop" /\ i = t THEN FALSE
                     ELSE IF e.op \in {"new", "with_capacity"} /\ i = t THEN TRUE
-                    ELSE IF e.op = "clone" /\ i = u THEN TRUE ELSE tx[i].lv
+                    ELSE IF e.op = "clone" /\ i = u THEN TRUE
+                    ELSE IF e.op \in OpForms /\ i = 3 THEN TRUE ELSE tx[i].lv
       \* ---------- leaks (mem::forget of a Drain): elements not yielded and the block stay allocated forever
       forgot == e.op = "drain" /\ e.n = 1
       lk2 == IF forgot
@@ -195,7 +225,7 @@ OpStep(e) ==
                    blocks |-> IF pre.mask # 0 THEN Append(lk.blocks, BlockOf(pre, hd)) ELSE lk.blocks]
              ELSE lk
       \* ---------- PROPERTY checks
-      chkRet == absr.ok /\ cloneOK
+      chkRet == absr.ok /\ cloneOK /\ algOK
       chkAbs == \A i \in 1..hd.nt : lvAfter(i) => Elems(obsT[i]) = newAb[i]
       chkLive == \A i \in 1..hd.nt : obsX[i].lv = lvAfter(i)
       chkDrops == (hd.tr = 1) => (NoDupSeq(e.dr) /\ SeqToSet(e.dr) = absr.dr)
@@ -227,7 +257,7 @@ OpStep(e) ==
           [] e.op = "drain" -> e.al = <<>> /\ (e.n = 0 => obsX[t].asz = prex.asz)
           [] e.op = "new" -> obsX[t].asz = 0
           [] OTHER -> TRUE
-      chkPanic == e.pn \in {"", "index", "dup"}
+      chkPanic == e.pn \in {"", "index", "dup", "noteq"}
       opp == OpProp(e.op, hd.kind)
       invd == UNION {InvDiag(obsT[i], FALSE, TRUE) : i \in {j \in 1..hd.nt : lvAfter(j)}}
       invStruct == invd \cap {"I1 shape", "I2 mirror bytes", "I3 items = number of FULL bytes", "I4 an EMPTY bucket exists",
@@ -254,12 +284,15 @@ OpStep(e) ==
           [] e.op \in {"get_many_mut", "get_many_kv_mut"} ->
                [pre EXCEPT !.data = [i \in 0..pre.mask |-> IF pre.data[i] \in A /\ pre.data[i] \notin absr.A
                                                           THEN CHOOSE y \in absr.A : y[1] = pre.data[i][1] ELSE pre.data[i]]]
+          [] hd.kind = "set" -> SetOp(e, pre, IF u >= 1 /\ u <= Len(tb) THEN tb[u] ELSE pre, ph, LawfulEnv).t
           [] OTHER -> MapOp(e, pre, ph, LawfulEnv).t
       strictOK ==
         CASE e.op = "drop" -> TRUE
           [] e.op = "clone" -> NoIds(obsT[u]) = NoIds(pre) /\ obsT[t] = pre
           [] e.op = "clone_from" -> NoIds(obsT[t]) = exp
           [] e.op = "iter" -> obsT[t] = pre /\ IterStrict(e)
+          [] e.op \in OpForms -> TRUE
+          [] e.op \in {"or_assign", "xor_assign"} -> NoIds(obsT[t]) = NoIds(exp)
           [] OTHER -> obsT[t] = exp
   IN /\ IF mine # {} THEN Fail(l, {b[1] : b \in mine}) ELSE TRUE
      /\ IF bad # {} /\ mine = {} THEN TLCSet(46, TLCGet(46) + 1) /\ (IF TLCGet(47) = <<>> THEN TLCSet(47, <<l, e.op, {b[1] : b \in bad}>>) ELSE TRUE) ELSE TRUE
